@@ -24,7 +24,9 @@ def shrunk(fid):
 
 # two clean-room alternatives: (1) structural edits over plain data, (2) everything but structural edits
 CLEAN_C01 = ("formulas,links,cf,paste,autofill,borders,edges,delete_sheet,named_style_update,update_name;"
-             "structural,paste,autofill,cse_arrays,dyn_arrays,delete_sheet,edges,update_name,named_style_update,borders")
+             "structural,paste,autofill,cse_arrays,dyn_arrays,delete_sheet,edges,update_name,named_style_update,borders;"
+             # (3) insert/move of rows and columns over acyclic formulas (each formula reads only rows above it)
+             "cyclic,delete,cse_arrays,dyn_arrays,paste,autofill,links,cf,borders,edges,delete_sheet,named_style_update,update_name,names")
 STRUCT = ["InsertRows", "InsertCols", "DeleteRows", "DeleteCols", "MoveRows", "MoveCols"]
 CELLCATS = ["cell.content", "cell.fmt", "cell.value", "cell.struct", "cell.style", "cell.link"]
 
